@@ -27,6 +27,12 @@ CHECKS = {
         essential_labels=['mapping:log', 'mapping:linear', 'mapping:cubic', 'pos:dense', 'pos:sparse', 'pos:paginated', 'has-neg', 'has-zero', 'has-submin', 'has-edge-value', 'extreme-magnitude', 'q-on-integer-rank', 'interior-q-across-bins', 'custom-offset'],
         assumptions=COMMON_ASSUMPTIONS + ["floating-point slack 64*2^-52*(1+|ln v|+(|i|+|offset|)*ln gamma) is allowed on top of alpha (DESIGN §1.1)", "dense/paginated sketches draw values from an index window of at most 2^14 bins (memory)"],
     ),
+    'C02': dict(
+        level='exploration',
+        units=[U('^TestC02$', (4, 1500), (16, 40000))],
+        essential_labels=['mixed-store-kinds', 'same-kind-fast-path', 'tree-depth>=2', 'has-zero', 'has-neg', 'recycled-part', 'empty-part', 'decode-merge-edge'],
+        assumptions=COMMON_ASSUMPTIONS + ["dyadic bounded weights make every float sum exact, so merged and single-sketch observations are compared bit for bit"],
+    ),
     'C03': dict(
         level='exploration',
         units=[U('^TestC03$', (4, 8000), (16, 400000))],
@@ -63,6 +69,24 @@ CHECKS = {
         ],
         essential_labels=['kind:collow', 'kind:colhigh', 'folded', 'op-after-fold', 'merge-same-kind', 'merge-wide-into-empty', 'add-beyond-edge-after-collapse'],
         assumptions=COMMON_ASSUMPTIONS + ["fold(M,N) model: folding is history-independent (DESIGN §2 C05); dyadic weights"],
+    ),
+    'C11': dict(
+        level='exploration',
+        units=[U('^TestC11$', (4, 4000), (16, 100000))],
+        essential_labels=['W<1', 'one-sided', 'reached-by-reweight', 'fractional-weights', 'mode:single-light', 'mode:several-light', 'pos:dense', 'pos:sparse', 'pos:paginated'],
+        assumptions=COMMON_ASSUMPTIONS + ["'within one unit of weight' is taken as distance(rank, cumulative-weight interval) <= 1 (DESIGN §2 C11)"],
+    ),
+    'C12': dict(
+        level='exploration',
+        units=[U('^TestC12$', (4, 2500), (16, 50000))],
+        essential_labels=['shape:all-negative', 'shape:all-zero', 'shape:zero+negative', 'shape:single-value', 'shape:sub-minimum', 'shape:mixed', 'after-merge', 'after-clear', 'after-decode', 'same-signed-sum', 'pos:collow', 'pos:colhigh', 'pos:paginated'],
+        assumptions=COMMON_ASSUMPTIONS + ["accuracy of min/max/sum w.r.t. raw values is asserted only when no collapsing store took part in the history"],
+    ),
+    'C13': dict(
+        level='exploration',
+        units=[U('^TestC13$', (4, 5000), (16, 100000))],
+        essential_labels=['refused-add', 'refused-quantile', 'refused-merge', 'refused-reweight', 'refused-constructor', 'accept-at-boundary', 'state:empty', 'state:non-empty', 'variant:exact', 'variant:plain', 'mismatch:kind', 'mismatch:alpha'],
+        assumptions=COMMON_ASSUMPTIONS + ["NaN weights/factors/constructor parameters are outside the property", "AddWithCount(invalid value, 0) on the exact variant may return nil or the error; only 'changes nothing' is required"],
     ),
     'C18': dict(
         level='exploration',
